@@ -1216,6 +1216,13 @@ impl<const STREAMING: bool> GroupValues for GroupValuesColumn<STREAMING> {
                 let fresh = Self::build_group_columns(&self.schema)?;
                 let group_values = mem::replace(&mut self.group_values, fresh);
 
+                // The hash table must not keep group indices that point into
+                // the emitted builders
+                self.map.clear();
+                if !STREAMING {
+                    self.group_index_lists.clear();
+                }
+
                 group_values
                     .into_iter()
                     .map(|v| v.build())
